@@ -9,7 +9,7 @@
 use crate::model::{Bits, BitsStream, ModelErr};
 use crate::vw::VE;
 use dsi_bitstream::codes::*;
-use dsi_bitstream::traits::{BitRead, BitWrite, BE, LE};
+use dsi_bitstream::traits::{BitRead, BitSeek, BitWrite, BE, LE};
 use dsi_bitstream::utils::{CountBitReader, CountBitWriter, DbgBitReader, DbgBitWriter};
 
 macro_rules! c14_for {
@@ -206,6 +206,55 @@ macro_rules! c14_for {
                 (op, k, w.bits, start)
             }
 
+            /// CountBitReader / CountBitWriter as BitSeek: positions are those of the wrapped stream
+            pub fn count_reader_seek() {
+                let bits = Bits::any(64);
+                let strict: bool = kani::any();
+                let start: usize = kani::any();
+                kani::assume(start <= bits.len);
+                let mut bare = S::new(bits, strict, 16);
+                bare.pos = start;
+                let mut inner0 = S::new(bits, strict, 16);
+                inner0.pos = start;
+                let mut cr = CountBitReader::<$e, S>::new(inner0);
+                let c0: usize = kani::any();
+                kani::assume(c0 < 1 << 40);
+                cr.bits_read = c0;
+                kani::assert(cr.bit_pos() == bare.bit_pos(), "OBS c14.count_reader.bit_pos: the wrapper reports the position of the wrapped stream");
+                let q: u64 = kani::any();
+                kani::assume(q <= 300);
+                let rb = bare.set_bit_pos(q);
+                let rr = cr.set_bit_pos(q);
+                kani::assert(rr == rb, "OBS c14.count_reader.set_bit_pos: the wrapper returns what the wrapped stream returns");
+                kani::assert(cr.bit_pos() == bare.bit_pos(), "OBS c14.count_reader.set_bit_pos: the wrapper reports the position of the wrapped stream after a seek");
+                let inner = cr.into_inner();
+                kani::assert(inner.pos == bare.pos, "OBS c14.count_reader.set_bit_pos: the wrapped stream is positioned where the bare stream is");
+                kani::cover!(rr.is_ok() && q as usize != start && start > 0 && c0 != start, "c14.count_reader.seek reachable");
+            }
+
+            pub fn count_writer_seek() {
+                let pre = Bits::any(64);
+                let start: usize = kani::any();
+                kani::assume(start <= pre.len);
+                let mut bare = S::new(pre, true, 16);
+                bare.pos = start;
+                let mut inner0 = S::new(pre, true, 16);
+                inner0.pos = start;
+                let mut cw = CountBitWriter::<$e, S>::new(inner0);
+                let c0: usize = kani::any();
+                kani::assume(c0 < 1 << 40);
+                cw.bits_written = c0;
+                kani::assert(cw.bit_pos() == bare.bit_pos(), "OBS c14.count_writer.bit_pos: the wrapper reports the position of the wrapped stream");
+                let q: u64 = kani::any();
+                kani::assume(q <= 300);
+                let rb = bare.set_bit_pos(q);
+                let rw = cw.set_bit_pos(q);
+                kani::assert(rw == rb, "OBS c14.count_writer.set_bit_pos: the wrapper returns what the wrapped stream returns");
+                kani::assert(cw.bit_pos() == bare.bit_pos(), "OBS c14.count_writer.set_bit_pos: the wrapper reports the position of the wrapped stream after a seek");
+                kani::assert(cw.bits_written == c0, "OBS c14.count_writer.set_bit_pos: seeking writes nothing, so bits_written does not change");
+                kani::cover!(rw.is_ok() && q as usize != start && c0 != start, "c14.count_writer.seek reachable");
+            }
+
             /// CountBitReader: same values, same position, counter = bits consumed
             pub fn count_reader(opfix: u8) {
                 let (op, k, bits, start) = read_setup(opfix);
@@ -292,6 +341,8 @@ macro_rules! h {
 pub mod hbe {
     use super::*;
     h!(count_writer_flush, 4, be::count_writer_flush());
+    h!(count_reader_seek, 4, be::count_reader_seek());
+    h!(count_writer_seek, 4, be::count_writer_seek());
     h!(count_writer_write_bits, 12, be::count_writer(0));
     h!(dbg_writer_write_bits, 12, be::dbg_writer(0));
     h!(count_writer_write_unary, 12, be::count_writer(1));
@@ -362,6 +413,8 @@ pub mod hbe {
 pub mod hle {
     use super::*;
     h!(count_writer_flush, 4, le::count_writer_flush());
+    h!(count_reader_seek, 4, le::count_reader_seek());
+    h!(count_writer_seek, 4, le::count_writer_seek());
     h!(count_writer_write_bits, 12, le::count_writer(0));
     h!(dbg_writer_write_bits, 12, le::dbg_writer(0));
     h!(count_writer_write_unary, 12, le::count_writer(1));
